@@ -10,4 +10,5 @@ func TestMain(m *testing.M) { ev.Main(m) }
 
 func TestClose(t *testing.T)      { closeProp.Test(t) }
 func TestCloseRT(t *testing.T)    { closeRTProp.Test(t) }
+func TestPairs(t *testing.T)      { enumeratePairs(t) }
 func TestVerifChild(t *testing.T) { ev.ChildMain(t, closeProp, closeRTProp) }
